@@ -921,10 +921,11 @@ func untriggered(ld *Loaded, ex *Exec, id string) []string {
 // parameter or named result (a harmless edit) must not make the contracts unreadable: paramNames binds the recorded
 // name to the same position when the function still has as many parameters of it.
 type sigNames struct {
-	Params  []string            `json:"params"`
-	Results []string            `json:"results"`
-	Allocs  []string            `json:"allocs,omitempty"` // named address-taken locals, in program order
-	Phis    map[string][]string `json:"phis,omitempty"`   // per loop ordinal: named loop-carried locals, in header order
+	Params   []string            `json:"params"`
+	Results  []string            `json:"results"`
+	FreeVars []string            `json:"freevars,omitempty"` // captured variables of a closure, in binding order
+	Allocs   []string            `json:"allocs,omitempty"`   // named address-taken locals, in program order
+	Phis     map[string][]string `json:"phis,omitempty"`     // per loop ordinal: named loop-carried locals, in header order
 }
 
 // localNames lists the named locals a loop invariant can mention, in a position-stable order.
@@ -985,6 +986,9 @@ func updateSignatureBaseline(ld *Loaded) {
 			s.Results = append(s.Results, r.At(i).Name())
 		}
 		s.Allocs, s.Phis = localNames(fn)
+		for _, fv := range fn.FreeVars {
+			s.FreeVars = append(s.FreeVars, fv.Name())
+		}
 		m[strings.ReplaceAll(name, modulePrefix+"/", "")] = s
 	}
 	b, _ := json.MarshalIndent(m, "", " ")
